@@ -1,13 +1,126 @@
 use crate::{b, u, Host};
 use sc62015_core::memory::MemoryImage;
 use sc62015_core::timer::TimerContext;
+use sc62015_core::KeyboardMatrix;
 use serde_json::{json, Value};
 
 pub fn dispatch(host: &mut Host, name: &str, op: &Value) -> Result<Option<Value>, String> {
     if let Some(rest) = name.strip_prefix("t.") {
         return timer(host, rest, op);
     }
+    if let Some(rest) = name.strip_prefix("k.") {
+        return keyboard(host, rest, op);
+    }
     Err(format!("unknown component op {name}"))
+}
+
+fn kb_state(kb: &KeyboardMatrix, mem: &MemoryImage, codes: &[u8]) -> Value {
+    let snap = kb.snapshot_state();
+    let mut keys = Vec::new();
+    for code in codes {
+        let col = (code >> 3) as usize;
+        let row = (code & 7) as usize;
+        let mut entry = json!(null);
+        // key_states is keyed by name; find by recomputing the name through the public helper
+        for (name, st) in snap.key_states.iter() {
+            if KeyboardMatrix::matrix_code_for_key_name(name) == Some(*code) {
+                entry = json!([st.pressed, st.debounced, st.press_ticks, st.release_ticks, st.repeat_ticks]);
+                break;
+            }
+        }
+        let _ = (col, row);
+        keys.push(entry);
+    }
+    json!({
+        "fifo": kb.fifo_snapshot(),
+        "isr": mem.read_internal_byte_silent(0xFC).unwrap_or(0),
+        "kil_latch": snap.kil_latch,
+        "keys": keys,
+    })
+}
+
+/// KeyboardMatrix component level (C14): ["k.new", slot, cfg], ["k.script", slot, [codes], kb_irq, [ops]]
+fn keyboard(host: &mut Host, name: &str, op: &Value) -> Result<Option<Value>, String> {
+    let slot = u(op, 1)?;
+    match name {
+        "new" => {
+            let mut kb = KeyboardMatrix::new();
+            let mem = MemoryImage::new();
+            let cfg = op.get(2).cloned().unwrap_or(json!({}));
+            let mut snap = kb.snapshot_state();
+            if let Some(v) = cfg.get("press").and_then(|x| x.as_u64()) {
+                snap.press_threshold = v as u8;
+            }
+            if let Some(v) = cfg.get("release").and_then(|x| x.as_u64()) {
+                snap.release_threshold = v as u8;
+            }
+            if let Some(v) = cfg.get("repeat_delay").and_then(|x| x.as_u64()) {
+                snap.repeat_delay = v as u8;
+            }
+            if let Some(v) = cfg.get("repeat_interval").and_then(|x| x.as_u64()) {
+                snap.repeat_interval = v as u8;
+            }
+            if let Some(v) = cfg.get("active_high").and_then(|x| x.as_bool()) {
+                snap.columns_active_high = v;
+            }
+            kb.load_snapshot_state(&snap);
+            host.keyboards.insert(slot, (kb, mem));
+            Ok(None)
+        }
+        "script" => {
+            let codes: Vec<u8> = op
+                .get(2)
+                .and_then(|x| x.as_array())
+                .map(|a| a.iter().filter_map(|v| v.as_u64()).map(|v| v as u8).collect())
+                .unwrap_or_default();
+            let mut kb_irq = b(op, 3)?;
+            let script = op
+                .get(4)
+                .and_then(|x| x.as_array())
+                .ok_or_else(|| "k.script needs ops".to_string())?;
+            let (kb, mem) = host
+                .keyboards
+                .get_mut(&slot)
+                .ok_or_else(|| format!("no keyboard {slot}"))?;
+            let mut out: Vec<Value> = Vec::new();
+            for step in script {
+                let kind = step.get(0).and_then(|x| x.as_str()).unwrap_or("");
+                let mut ret = Value::Null;
+                match kind {
+                    "press" => kb.press_matrix_code(u(step, 1)? as u8, mem),
+                    "release" => kb.release_matrix_code(u(step, 1)? as u8, mem),
+                    "kol" => {
+                        kb.handle_write(0xF0, u(step, 1)? as u8, mem);
+                    }
+                    "koh" => {
+                        kb.handle_write(0xF1, u(step, 1)? as u8, mem);
+                    }
+                    "tick" => {
+                        // what CoreRuntime does on a scan: scan_tick(count_irq=true), then mirror to ISR
+                        let events = kb.scan_tick(mem, true);
+                        if events > 0 || (kb_irq && kb.fifo_len() > 0) {
+                            kb.write_fifo_to_memory(mem, kb_irq);
+                        }
+                        ret = json!(events);
+                    }
+                    "read" => {
+                        ret = json!(kb.handle_read(0xF2, mem));
+                    }
+                    "inject" => {
+                        let n = kb.inject_matrix_event(u(step, 1)? as u8, b(step, 2)?, mem, kb_irq);
+                        ret = json!(n);
+                    }
+                    "consume" => kb.consume_pending_events(),
+                    "clrisr" => mem.write_internal_byte(0xFC, 0),
+                    "kbirq" => kb_irq = b(step, 1)?,
+                    other => return Err(format!("bad keyboard step {other}")),
+                }
+                out.push(json!([ret, kb_state(kb, mem, &codes)]));
+            }
+            Ok(Some(Value::Array(out)))
+        }
+        _ => Err(format!("unknown keyboard op k.{name}")),
+    }
 }
 
 /// TimerContext component level (C13).  One request op carries a whole tick script so
